@@ -122,6 +122,7 @@ def gen(rng, tier, i):
         elif r < 0.90: text = 'present %s' % b
         elif r < 0.93: text = 'as %s say hi' % a
         elif r < 0.95: text = 'as %s lname n%d' % (a, rng.randint(0, 3))
+        elif r < 0.96: text = 'reclaim'
         elif r < 0.97: text = 'hb %s 1' % a
         elif r < 0.985: text = 'wclone /wobj#%d %s' % (rng.randint(2, 5), newtag())
         else: text = 'wload /w/missing %s' % newtag()
